@@ -147,7 +147,18 @@ func (b *brHarness) state() string {
 		}
 	}
 	last, _ := e.raw.GetLastObservedSkywayNonce(e.ctx, skyChain)
-	fmt.Fprintf(&sb, " last=%d", last)
+	fmt.Fprintf(&sb, " last=%d usage=", last)
+	for t := 1; t <= b.nTok; t++ {
+		if t > 1 {
+			sb.WriteString(",")
+		}
+		us, err := e.raw.BridgeTransferUsage(e.ctx, e.denoms[t-1])
+		if err != nil || us == nil || us.Total.IsNil() {
+			sb.WriteString("-")
+		} else {
+			fmt.Fprintf(&sb, "%d:%s", us.StartBlockHeight, us.Total)
+		}
+	}
 	return sb.String()
 }
 
@@ -381,7 +392,12 @@ func runBridgeCase(t *testing.T, r *Rec, prop string, nops int) {
 			case 1:
 				if us, err := e.raw.BridgeTransferUsage(e.ctx, e.denoms[tk-1]); err == nil && us != nil {
 					if lim, err := e.raw.BridgeTransferLimit(e.ctx, e.denoms[tk-1]); err == nil && lim != nil && lim.BlockLimit() > 0 {
-						target := us.StartBlockHeight + lim.BlockLimit() - 1 + int64(r.Rng.Intn(3))
+						// the edge of the running window, or of a window several idle periods later
+						k := int64([]int{1, 1, 1, 2, 3, 5}[r.Rng.Intn(6)])
+						target := us.StartBlockHeight + k*lim.BlockLimit() - 1 + int64(r.Rng.Intn(3))
+						if k > 1 {
+							r.Stat("send.idle_periods")
+						}
 						if target > e.height {
 							e.setBlock(target, e.now.Add(2*time.Second))
 							r.Stat("send.window_edge")
